@@ -1,7 +1,130 @@
-(* C19 (placeholder while the pipeline is brought up) *)
+(* C19  License expressions are validated and canonicalised per SPDX (canonicalize_license_expression).
+
+   Model   LicModel.canon / LicTop.canonicalize_license_expression: the function of src/packaging/licenses/__init__.py statement by
+           statement (paddings, str.split on the 29 whitespace code points, str.lower, skeleton with the two parenthesis guards,
+           eval of the skeleton as the automaton pyrun + CPython's nesting limits, final pass with table lookups, the LicenseRef
+           regex on the token as written, " ".join and the two final replaces), over the tables of coq/Gen/SpdxTable.v.
+   Spec    LicSpec: tokens, ASCII case folding, the SPDX automaton (LicAuto.spdx_ok) = the grammar LicGrammar.expr, canonical tokens,
+           tight printing.  The specification never looks at the lower-case keys, only at the official ids.
+   Result  Ok o | Err (InvalidLicenseExpression) | Limit o (nesting depth 101..200: Ok o or Err, CPython parser dependent) | Crash.
+   Domain  kfree s: no U+212A KELVIN SIGN in the input (str.lower() maps it to "k", see C19_kelvin_refuted).  Every other
+           non-ASCII, non-whitespace character makes the model reject (C19_accepted_is_ascii).
+   Table   LicTable.spdx_table_ok is re-proved by vm_compute over the table of the working tree on every run. *)
 From Coq Require Import List NArith Bool.
-Require Import LicAuto.
-Theorem C19_token_level_accepts_iff_spdx (id : Type) (lic_ok exc_ok : id -> bool) ts :
-  code_ok id lic_ok exc_ok ts = spdx_ok id lic_ok exc_ok ts.
-Proof. apply C19_code_accepts_iff_spdx. Qed.
-Print Assumptions C19_token_level_accepts_iff_spdx.
+Import ListNotations.
+Require Import VParse LicModel LicAuto LicSpec LicLex LicCode LicIdem LicGrammar LicTable LicTop SpdxTable.
+Open Scope N_scope.
+
+Notation canonicalize := canonicalize_license_expression.
+Notation spec := (spec_canon licenses exceptions).
+Notation deeper_than n s := (nests_deeper_than n (spdx_tokens s) = true).
+
+(* 1. the function computes the specification: it accepts exactly the SPDX expressions over the tables, in any ASCII case and whitespace
+      layout, and returns the canonical text; the only deviation is the interpreter's nesting limit (depth > 200 always rejected,
+      101..200 interpreter dependent) *)
+Theorem C19_computes_the_specification s : kfree s ->
+  canonicalize s = match spec s with
+                   | None => Err
+                   | Some o => if nests_deeper_than 200 (spdx_tokens s) then Err
+                               else if nests_deeper_than 100 (spdx_tokens s) then Limit o else Ok o
+                   end.
+Proof. exact (canon_spec licenses exceptions spdx_table_ok s). Qed.
+Print Assumptions C19_computes_the_specification.
+
+(* 2. accepted exactly when the token sequence is an SPDX expression (up to the nesting limit) *)
+Theorem C19_accepts_iff_spdx s : kfree s -> ~ deeper_than 100 s ->
+  ((exists o, canonicalize s = Ok o) <-> spdx_tokens_ok licenses exceptions (spdx_tokens s) = true).
+Proof.
+  intros F D. rewrite (C19_computes_the_specification s F). unfold spec_canon.
+  assert (D2 : nests_deeper_than 200 (spdx_tokens s) = false).
+  { destruct (nests_deeper_than 200 (spdx_tokens s)) eqn:E; [|reflexivity]. exfalso. apply D.
+    unfold nests_deeper_than in *. apply (nest_exceeds_mono 100 200); [|exact E]. repeat constructor. }
+  destruct (spdx_tokens_ok licenses exceptions (spdx_tokens s)) eqn:E.
+  - destruct (spdx_ok_canon_tokens _ _ _ E) as (out & ->). rewrite D2.
+    destruct (nests_deeper_than 100 (spdx_tokens s)); [now destruct D|]. split; eauto.
+  - split; [intros (o & H); discriminate|discriminate].
+Qed.
+Print Assumptions C19_accepts_iff_spdx.
+
+(* the spec's recogniser is the SPDX grammar: LicGrammar.expr generates exactly the accepted token sequences *)
+Theorem C19_spdx_automaton_is_the_grammar ts :
+  spdx_tokens_ok licenses exceptions ts = true <-> exists e, expr_ok licenses exceptions e /\ map classify ts = expr_tokens e.
+Proof. exact (automaton_iff_grammar licenses exceptions ts). Qed.
+Print Assumptions C19_spdx_automaton_is_the_grammar.
+
+(* 3. canonical form: one result token per input token - operators in upper case, official ids, "LicenseRef-" + the suffix as written,
+      "+" kept (LicSpec.canon_tokens) - each the same word as its input token (same structure), ASCII, printed with single spaces
+      and tight parentheses; and the text tokenises back to exactly these tokens *)
+Theorem C19_canonical_form s o : kfree s -> (canonicalize s = Ok o \/ canonicalize s = Limit o) ->
+  exists out, canon_tokens licenses exceptions false (spdx_tokens s) = Some out /\ o = tight out /\
+              Forall2 teq (spdx_tokens s) out /\ spdx_tokens o = out /\ forallb asciib o = true.
+Proof.
+  intros F H. rewrite (C19_computes_the_specification s F) in H. unfold spec_canon in H.
+  destruct (spdx_tokens_ok licenses exceptions (spdx_tokens s)) eqn:E; [|destruct H; discriminate].
+  destruct (canon_tokens licenses exceptions false (spdx_tokens s)) as [out|] eqn:C; [|destruct H; discriminate].
+  assert (o = tight out).
+  { destruct (nests_deeper_than 200 (spdx_tokens s)); [destruct H; discriminate|].
+    destruct (nests_deeper_than 100 (spdx_tokens s)); destruct H as [H|H]; congruence. }
+  subst o. exists out. destruct (canon_tokens_shape _ _ spdx_table_ok _ _ _ C) as [A B].
+  repeat split; auto.
+  - now apply (canon_tokens_same_words _ _ spdx_table_ok _ false).
+  - unfold spdx_tokens. now apply retokenise.
+  - now apply tight_ascii.
+Qed.
+Print Assumptions C19_canonical_form.
+
+(* 4. idempotent *)
+Theorem C19_idempotent s o : kfree s -> canonicalize s = Ok o -> canonicalize o = Ok o.
+Proof. intros F H. rewrite <- H. apply (canon_idempotent _ _ spdx_table_ok s o F). now left. Qed.
+Print Assumptions C19_idempotent.
+
+(* 5. insensitive to ASCII case (outside LicenseRef suffixes) and to whitespace layout: same words, same result *)
+Theorem C19_case_and_layout_insensitive s s' : kfree s -> kfree s' -> Forall2 teq (spdx_tokens s) (spdx_tokens s') ->
+  canonicalize s = canonicalize s'.
+Proof. exact (canon_insensitive _ _ spdx_table_ok s s'). Qed.
+Print Assumptions C19_case_and_layout_insensitive.
+(* whitespace layout alone, for every input: the result depends on the token sequence only *)
+Theorem C19_layout_insensitive s s' : spdx_tokens s = spdx_tokens s' -> canonicalize s = canonicalize s'.
+Proof. intros H. unfold canonicalize_license_expression. rewrite !canon_split. unfold spdx_tokens in H. now rewrite H. Qed.
+Print Assumptions C19_layout_insensitive.
+
+(* 6. everything else is rejected with the documented exception: no other exception, for any input whatsoever *)
+Theorem C19_only_the_documented_exception s : canonicalize s <> Crash.
+Proof. exact (canon_no_crash licenses exceptions s). Qed.
+Print Assumptions C19_only_the_documented_exception.
+Theorem C19_rejects_what_is_not_spdx s : kfree s -> spec s = None -> canonicalize s = Err.
+Proof. intros F H. rewrite (C19_computes_the_specification s F). now rewrite H. Qed.
+Print Assumptions C19_rejects_what_is_not_spdx.
+Theorem C19_empty_rejected : canonicalize [] = Err.
+Proof. reflexivity. Qed.
+Print Assumptions C19_empty_rejected.
+
+(* 7. an accepted input consists of ASCII characters and whitespace (so the model's treatment of other non-ASCII text is immaterial) *)
+Theorem C19_accepted_is_ascii s o : kfree s -> (canonicalize s = Ok o \/ canonicalize s = Limit o) ->
+  forall c, In c s -> asciib c = true \/ is_ws c = true.
+Proof.
+  intros F H. destruct (C19_canonical_form s o F H) as (out & C & _ & Q & _ & _).
+  destruct (canon_tokens_shape _ _ spdx_table_ok _ _ _ C) as [_ B]. now apply (accepted_ascii s out).
+Qed.
+Print Assumptions C19_accepted_is_ascii.
+
+(* the deviations of the code from the property, as theorems about the faithful model *)
+(* "K"+"azlib" (U+212A KELVIN SIGN) is accepted as Kazlib although it is no ASCII-case spelling of any id *)
+Example C19_kelvin_refuted :
+  canonicalize [8490;97;122;108;105;98] = Ok [75;97;122;108;105;98] /\ spec [8490;97;122;108;105;98] = None.
+Proof. split; vm_compute; reflexivity. Qed.
+(* 201 nested parentheses around MIT: an SPDX expression, rejected *)
+Example C19_deep_nesting_refuted :
+  let s := repeat 40 201 ++ [77;73;84] ++ repeat 41 201 in
+  canonicalize s = Err /\ spdx_tokens_ok licenses exceptions (spdx_tokens s) = true.
+Proof. split; vm_compute; reflexivity. Qed.
+
+(* non-vacuity: " mit\x0bOR( apache-2.0+ with\nLLVM-EXCEPTION and licenseref-My.Ref) " is accepted with the canonical text
+   "MIT OR (Apache-2.0+ WITH LLVM-exception AND LicenseRef-My.Ref)", which is a fixed point *)
+Example C19_nonvacuous :
+  let s := [32;109;105;116;11;79;82;40;32;97;112;97;99;104;101;45;50;46;48;43;32;119;105;116;104;10;76;76;86;77;45;69;88;67;69;80;84;73;79;78;32;
+            97;110;100;32;108;105;99;101;110;115;101;114;101;102;45;77;121;46;82;101;102;41;32] in
+  let o := [77;73;84;32;79;82;32;40;65;112;97;99;104;101;45;50;46;48;43;32;87;73;84;72;32;76;76;86;77;45;101;120;99;101;112;116;105;111;110;32;
+            65;78;68;32;76;105;99;101;110;115;101;82;101;102;45;77;121;46;82;101;102;41] in
+  kfree s /\ canonicalize s = Ok o /\ spec s = Some o /\ canonicalize o = Ok o.
+Proof. repeat split; try (vm_compute; reflexivity). intros K. cbn in K. repeat (destruct K as [K|K]; [discriminate|]). exact K. Qed.
